@@ -160,8 +160,17 @@ class _FixedWhenUnseeded:
         return self.fn(shape=shape, seed=seed, return_acs=return_acs)
 
 
+@functools.lru_cache(maxsize=None)
+def _mask_func_multi():
+    """list-valued options: the mask function chooses among several (acceleration, centre fraction) pairs with its own RNG"""
+    from direct.common.subsample import build_masking_function
+    return build_masking_function("FastMRIRandom", accelerations=[2, 3, 2], center_fractions=[0.34, 0.25, 0.5])
+
+
 def mask_func_of(kind: str):
     """random (acceleration 4) / full (the repository's mask function with acceleration 1: fully sampled) / zero"""
+    if kind == "multi":
+        return _mask_func_multi()
     if kind == "full":
         return _mask_func(1, 0.5)
     if kind == "zero":
@@ -868,6 +877,70 @@ def _pair_fixups(f: dict, rng) -> dict:
     return f
 
 
+COINCIDENCES = ("slices==height", "coils==height", "width==crop-height", "crop==size-on-one-axis", "cubic-volume",
+                "crop==size", "height==width==crop", "pad==size-on-one-axis", "rescale==size")
+
+
+def coincidence_config(rng, cls: str) -> tuple[dict, np.ndarray]:
+    """a crop / pad / rescale configuration whose axis lengths coincide in the named way (2-D and 3-D); a shape computation
+    that pairs the wrong axes, or a shortcut on equal sizes, shows up only on such shapes"""
+    f = {**random_flags(rng, valid_only=True), "rescale": 0, "pad": 0, "compress_coils": 0}
+    f["crop"] = rng.choice([1, 2])
+    three_d = rng.random() < 0.5
+    nc, ns, h, w = rng.choice([1, 2, 3]), (rng.choice([2, 3, 4]) if three_d else 0), rng.choice([7, 8, 9, 10]), rng.choice([7, 8, 9, 10, 12])
+    ch, cw = rng.randint(3, h - 1), rng.randint(3, w - 1)
+    cfg = {}
+    if cls == "slices==height":
+        three_d = True
+        if rng.random() < 0.5:
+            h = ns = rng.choice([6, 8])
+            w = rng.choice([6, 7, 9])
+            ch, cw = rng.randint(3, h), rng.randint(3, w - 1)
+        else:                                        # … and width == crop height (the 8x8x8 volume with crop (8, 6) family)
+            ch = rng.choice([5, 6, 8])
+            w = ch
+            h = ns = rng.choice([v for v in (6, 7, 8) if v >= ch])
+            cw = rng.randint(3, w - 1)
+    elif cls == "coils==height":
+        nc = h = rng.choice([4, 5, 6])
+        ch = rng.randint(3, h - 1) if h > 3 else 3
+    elif cls == "width==crop-height":
+        ch = rng.choice([5, 6, 7])
+        w, h = ch, ch + rng.choice([1, 2, 3])
+        cw = rng.randint(3, w - 1)
+    elif cls == "crop==size-on-one-axis":
+        if rng.random() < 0.5:
+            ch = h
+        else:
+            cw = w
+    elif cls == "cubic-volume":
+        three_d = True
+        ns = h = w = rng.choice([6, 7, 8])
+        ch, cw = rng.choice([(h, rng.randint(3, w - 1)), (rng.randint(3, h - 1), w), (rng.randint(3, h - 1), rng.randint(3, w - 1))])
+    elif cls == "crop==size":
+        ch, cw = h, w
+    elif cls == "height==width==crop":
+        h = w = rng.choice([6, 8, 9])
+        ch, cw = h, rng.randint(3, w - 1)
+    elif cls == "pad==size-on-one-axis":
+        f.update(crop=rng.choice([0, 2]), pad=1)
+        base = (ch, cw) if f["crop"] else (h, w)
+        cfg["pad_shape"] = [base[0], base[1] + rng.choice([1, 3])] if rng.random() < 0.5 else [base[0] + rng.choice([1, 2]), base[1]]
+    elif cls == "rescale==size":
+        three_d = False
+        f.update(crop=0, rescale=1)
+        cfg["rescale_shape"] = [h, w] if rng.random() < 0.5 else [w, h]
+    if not three_d:
+        ns = 0
+    if f["rescale"]:
+        ns = 0
+    seed = rng.randrange(2 ** 31)
+    cfg.update({"flags": f, "shape": [nc] + ([ns] if ns else []) + [h, w], "crop_shape": [ch, cw], "seed": seed, "border": 0,
+                "zero_coil": False, "centered": rng.random() < 0.7, "pad_to": nc + rng.choice([0, 1]), "percentile": rng.choice([0.99, 0.9]),
+                "coincidence": cls})
+    return cfg, _gauss_sample(seed, nc, ns, h, w, 0, False)
+
+
 def pairwise_configs(ctx, n: int):
     """`n` configurations chosen greedily so that every *pair* of builder options is switched on together (non-default values
     of both, inputs that exercise both) as early as possible; yields (cfg, k) for `check_config`"""
@@ -1087,6 +1160,30 @@ def _oracle(ctx: Ctx, deep: bool = False):
         ctx.count(("oracle-pair", tuple(flag_list(cfg["flags"])), tuple(k.shape), cfg["seed"]), True,
                   bucket="oracle/pairwise/" + str(min(len(cfg["pair"]), 9)) + "-options-on")
         yield from _guarded(check_config(cfg, k), {"op": "pipeline", **cfg})
+    # (i-co) coincidence classes of axis lengths for crop / pad / rescale, 2-D and 3-D: the crop-shape statement (`crop_shape`,
+    #         `shape_tags` in Lean are about tags; here the real shapes) is checked on the implementation for each class
+    for i in range(ctx.budget(18, 270) * (3 if deep else 1)):
+        cls = COINCIDENCES[i % len(COINCIDENCES)]
+        cfg, k = coincidence_config(rng, cls)
+        ctx.count(("oracle-coincidence", cls, tuple(flag_list(cfg["flags"])), tuple(k.shape), cfg["seed"]), True,
+                  bucket="oracle/coincidence/" + cls + ("/3d" if k.ndim == 4 else "/2d"))
+        yield from _guarded(check_config(cfg, k), {"op": "pipeline", **cfg})
+    # (i-list) list-valued options: several split ratios, several accelerations / centre fractions
+    for i in range(ctx.budget(8, 120) * (3 if deep else 1)):
+        f = {**random_flags(rng, valid_only=True), "ssl": 1 if i % 4 != 3 else 0, "split": (1, 0, 1, 2)[i % 4], "compress_coils": 0}
+        if not f["ssl"]:
+            f["keep_acs"] = 0
+        elif f["keep_acs"]:
+            f["estimate_smaps"] = 1
+        if f["crop"] == 2:
+            f["crop"] = 1
+        nc, h, w = rng.choice([1, 2, 3]), rng.choice([8, 9, 10, 12]), rng.choice([10, 12, 15])
+        seed = rng.randrange(2 ** 31)
+        cfg = {"flags": f, "shape": [nc, h, w], "crop_shape": [rng.randint(4, h - 1), rng.randint(6, w - 1)], "seed": seed, "border": 0,
+               "zero_coil": False, "centered": rng.random() < 0.7, "pad_to": nc + 1, "percentile": 0.9,
+               "ratio": [0.2, 0.4, 0.6], "mask": "multi"}
+        ctx.count(("oracle-list", tuple(flag_list(f)), seed), True, bucket="oracle/list-valued/" + ("ssl-" + SPLIT[f["split"]] if f["ssl"] else "sup"))
+        yield from _guarded(check_config(cfg, _gauss_sample(seed, nc, 0, h, w, 0, False)), {"op": "pipeline", **cfg})
     # (viii) call histories on one transform object (no state kept across calls), raw input left untouched, input forms
     for i in range(ctx.budget(6, 60) * (3 if deep else 1)):
         f = {**random_flags(rng, valid_only=True), "delete_kspace": rng.choice([0, 1])}
@@ -1223,7 +1320,7 @@ def _build_for(cfg, mask_func=None):
               pad_shape=cfg.get("pad_shape"), rescale_shape=cfg.get("rescale_shape"))
     if cfg.get("family") == "prepost":
         return PrePost(*build_prepost_real(cfg["flags"], mf, fwd, bwd, **kw))
-    return build_real(cfg["flags"], mf, fwd, bwd, compress_to=cfg.get("compress_to"), **kw)
+    return build_real(cfg["flags"], mf, fwd, bwd, compress_to=cfg.get("compress_to"), ratio=cfg.get("ratio", 0.4), **kw)
 
 
 STALE = ("target", "masked_kspace", "scaling_factor")
@@ -1299,7 +1396,7 @@ def check_config(cfg, k: np.ndarray):
     fl = "".join(str(v) for v in flag_list(f))
     three_d = k.ndim == 4
     crop_shape = tuple(cfg["crop_shape"])
-    rs = crop_shape if f["crop"] == 2 else None
+    rs = (((k.shape[1],) if three_d else ()) + crop_shape) if f["crop"] == 2 else None
 
     def run(scale, slice_no=0, keep_kspace=False, stale=False):
         ff = dict(f)
@@ -1326,6 +1423,16 @@ def check_config(cfg, k: np.ndarray):
             yield Violation("missing-output-" + kk, f"the output lacks `{kk}`", {**rep, "missing": [kk]})
             return
     yield from check_relations(base, f, three_d, rep)
+    # (o) standing check: with seeding, the same sample twice through ONE pipeline object is bit-identical (every draw of the
+    #     mask function / the splitters — also the choice among several ratios / accelerations — is inside the seeded region)
+    if f["use_seed"]:
+        tr1 = _build_for(cfg)
+        first = run_real(tr1, raw_sample(k.copy(), crop_shape=rs))
+        np.random.seed((cfg["seed"] + 17) % (2 ** 31))          # the global generators move on between two calls of a data loader
+        torch.manual_seed(cfg["seed"] % (2 ** 31))
+        again = run_real(tr1, raw_sample(k.copy(), crop_shape=rs))
+        yield from _same_outputs(first, again, "the same sample a second time through the same pipeline object", rep, "not-deterministic")
+        yield from _same_outputs(base, first, "the same sample through two pipeline objects built alike", rep, "not-deterministic")
     # (i) scaling by 2^k bit-exact, arbitrary positive reals to 1e-4
     for kpow in (-14, 1, 12):
         sc = 2.0 ** kpow
@@ -2033,7 +2140,7 @@ def replay(rep: dict) -> bool:
             nc, ns = shape[0], (shape[1] if len(shape) == 4 else 0)
             k = _gauss_sample(rep["seed"], nc, ns, shape[-2], shape[-1], rep.get("border", 0), rep.get("zero_coil", False))
             cfg = {kk: rep[kk] for kk in ("flags", "shape", "crop_shape", "seed", "border", "zero_coil", "centered", "pad_to",
-                                          "percentile", "family", "stale", "pad_shape", "rescale_shape", "compress_to") if kk in rep}
+                                          "percentile", "family", "stale", "pad_shape", "rescale_shape", "compress_to", "ratio", "mask") if kk in rep}
             return any(True for _ in check_config(cfg, k))
         if op == "history":
             cfg = {kk: rep[kk] for kk in ("family", "flags", "seed", "shape", "crop_shape", "centered", "percentile", "pad_to", "compress_to") if kk in rep}
